@@ -9,6 +9,9 @@
                                    The block is opened unless some token is None or the empty string -- a number, zero included,
                                    is a token like any other
      [op |-> "menter", rows]       with self.multiblock(b1, b2, ...):
+     [op |-> "menterif", rows, cond, none]  with self.multiblock_if(b1, b2, ...[, condition=...]): cond = "true" / "false" (explicit) or
+                                   "default" (no condition given: the blocks are opened unless one of them is None -- `none` says that
+                                   a None stands among them); like block_if, a false condition runs the body without opening anything
      [op |-> "leave"]              end of the innermost with-statement
    P-layer: the MEANING of a program is the tree of yielded paths (block stack + line; a block header is a line of its own).
    A-layer: TreeGenerator's bookkeeping -- every line is stored with the concatenated indents of the open blocks, the text is then
@@ -19,6 +22,7 @@ EXTENDS Offside, Acl
 \* frames: stack of numbers = how many block levels the with-statement opened (0 for a false block_if)
 Opens(o) == CASE o.op = "enterif" -> o.cond
              [] o.op = "enterdef" -> \A k \in DOMAIN o.kinds : o.kinds[k] \notin {"none", "empty"}
+             [] o.op = "menterif" -> o.cond = "true" \/ (o.cond = "default" /\ ~o.none)
              [] OTHER -> TRUE
 RECURSIVE Meaning(_, _, _, _)
 Meaning(prog, stack, frames, tree) ==
@@ -32,7 +36,8 @@ Meaning(prog, stack, frames, tree) ==
       [] o.op \in {"enterif", "enterdef"} ->
            IF Opens(o) THEN Meaning(rest, Append(stack, o.row), Append(frames, 1), Insert(tree, Append(stack, o.row)))
            ELSE Meaning(rest, stack, Append(frames, 0), tree)
-      [] o.op = "menter" ->
+      [] o.op = "menterif" /\ ~Opens(o) -> Meaning(rest, stack, Append(frames, 0), tree)
+      [] o.op \in {"menter", "menterif"} ->
            LET RECURSIVE Ins(_, _, _)
                Ins(t, st, rs) == IF rs = <<>> THEN <<t, st>> ELSE Ins(Insert(t, Append(st, Head(rs))), Append(st, Head(rs)), Tail(rs))
                r == Ins(tree, stack, o.rows)
@@ -46,7 +51,7 @@ Tree(prog) == Meaning(prog, <<>>, <<>>, <<>>)
 RECURSIVE Balanced(_, _)
 Balanced(prog, depth) == IF prog = <<>> THEN TRUE
                          ELSE LET o == Head(prog) IN
-                              IF o.op \in {"enter", "enterif", "enterdef", "menter"} THEN Balanced(Tail(prog), depth + 1)
+                              IF o.op \in {"enter", "enterif", "enterdef", "menter", "menterif"} THEN Balanced(Tail(prog), depth + 1)
                               ELSE IF o.op = "leave" THEN depth > 0 /\ Balanced(Tail(prog), depth - 1)
                               ELSE Balanced(Tail(prog), depth)
 
@@ -63,7 +68,8 @@ Lines(prog, ind, frames) ==
       [] o.op = "enter" -> <<L(o.row, ind)>> \o Lines(rest, ind + 2, Append(frames, 1))
       [] o.op \in {"enterif", "enterdef"} -> IF Opens(o) THEN <<L(o.row, ind)>> \o Lines(rest, ind + 2, Append(frames, 1))
                                               ELSE Lines(rest, ind, Append(frames, 0))
-      [] o.op = "menter" -> [k \in DOMAIN o.rows |-> L(o.rows[k], ind + 2 * (k - 1))] \o Lines(rest, ind + 2 * Len(o.rows), Append(frames, Len(o.rows)))
+      [] o.op = "menterif" /\ ~Opens(o) -> Lines(rest, ind, Append(frames, 0))
+      [] o.op \in {"menter", "menterif"} -> [k \in DOMAIN o.rows |-> L(o.rows[k], ind + 2 * (k - 1))] \o Lines(rest, ind + 2 * Len(o.rows), Append(frames, Len(o.rows)))
       [] OTHER -> IF frames = <<>> THEN Lines(rest, ind, frames)
                   ELSE Lines(rest, ind - 2 * frames[Len(frames)], SubSeq(frames, 1, Len(frames) - 1))
 AParsed(prog) == P(Lines(prog, 0, <<>>), {"!", "#"})
